@@ -2,8 +2,10 @@
 //
 // A scenario is a small program: worker fibers doing Add / Done / Attach / Consume (each worker only adds while it
 // still holds an outstanding unit of its own: the documented rule), producer fibers fulfilling the promises of
-// the attached / consumed futures, and waiter fibers of every kind: blocking Wait, WaitFor with a deadline,
-// co_await AwaitInline / AwaitSticky / AwaitOn, and (OneShotEvent only) a raw Job given to TryAdd.
+// the attached / consumed futures, and waiter fibers of every kind: blocking Wait, WaitFor / WaitUntil with a deadline
+// (virtual time advances 10 ns per scheduler step; the deadline is a scenario parameter, the explorer's schedule
+// places the timeout before or after the final Done), co_await AwaitInline / AwaitSticky / AwaitOn, and
+// (OneShotEvent only) a raw Job given to TryAdd.
 //
 // The ORACLE is written from the property text only:
 //   * whenever a waiter is released, the harness' own shadow count of outstanding operations (units added and
